@@ -15,6 +15,7 @@ import (
 	"sort"
 	"strings"
 	"sync"
+	"sync/atomic"
 
 	"github.com/ipfs/go-cid"
 	"github.com/ipld/go-ipld-prime/codec/dagcbor"
@@ -27,6 +28,7 @@ import (
 	"github.com/ipld/go-ipld-prime/node/bindnode"
 	"github.com/ipld/go-ipld-prime/node/gendemo"
 	"github.com/ipld/go-ipld-prime/schema"
+	"github.com/ipld/go-ipld-prime/storage/fsstore"
 	"github.com/ipld/go-ipld-prime/storage/memstore"
 	"github.com/ipld/go-ipld-prime/traversal"
 	mh "github.com/multiformats/go-multihash"
@@ -96,7 +98,13 @@ type c20Shared struct {
 	failLinks []datamodel.Link
 	// a Config with every field set by the caller (nothing for a walk to fill in), including a start path
 	cfgFull *traversal.Config
+	// a file-system block store filled beforehand and only read afterwards
+	fs     *fsstore.Store
+	fsKeys []string
 }
+
+var c20TempDirs []string
+var c20FsTurn uint64
 
 func c20Setup(seed uint64) (*c20Shared, error) {
 	r := core.NewRand(seed, "c20-setup")
@@ -150,6 +158,24 @@ func c20Setup(seed uint64) (*c20Shared, error) {
 	ma.Finish()
 	s.gen = nb.Build()
 	s.stream = basicnode.NewBytesFromReader(bytes.NewReader([]byte("stream-backed bytes content")))
+	// the file-system store of the "fsstore" workload (its directory lives as long as the process)
+	if dir, err := os.MkdirTemp("", "verif-c20-fs-"); err == nil {
+		st := &fsstore.Store{}
+		if st.InitDefaults(dir) == nil {
+			for i := 0; i < 40; i++ {
+				sum, _ := mh.Sum(r.Bytes(8), mh.SHA2_256, -1)
+				key := cid.NewCidV1(0x71, sum).KeyString()
+				if i%5 == 0 {
+					key = string(r.Bytes(1 + r.Intn(20)))
+				}
+				if st.Put(context.Background(), key, append([]byte(fmt.Sprintf("content-%d-", i)), r.Bytes(r.Intn(40))...)) == nil {
+					s.fsKeys = append(s.fsKeys, key)
+				}
+			}
+			s.fs = st
+		}
+		c20TempDirs = append(c20TempDirs, dir)
+	}
 	// blocks for the "loadfail" workload
 	store := &memstore.Store{Bag: map[string][]byte{}}
 	s.lsysMem = cidlink.DefaultLinkSystem()
@@ -253,6 +279,33 @@ func c20Work(s *c20Shared, workload string, iters int) string {
 				dagjson.Encode(s.bound.(schema.TypedNode).Representation(), &buf)
 				put(buf.String())
 			}()
+		case "fsstore": // lookups of DIFFERENT keys in one file-system store at the same time (each goroutine starts elsewhere)
+			if s.fs == nil {
+				put("no-fs")
+				break
+			}
+			ctx := context.Background()
+			off := int(atomic.AddUint64(&c20FsTurn, 1))
+			results := make([]string, len(s.fsKeys))
+			for j := range s.fsKeys {
+				k := (j + off*7) % len(s.fsKeys)
+				key := s.fsKeys[k]
+				has, err := s.fs.Has(ctx, key)
+				res := fmt.Sprint(hex.EncodeToString([]byte(key)), has, err)
+				b, err := s.fs.Get(ctx, key)
+				res += fmt.Sprint(" ", string(b), err)
+				if rc, err := s.fs.GetStream(ctx, key); err == nil {
+					bb, _ := io.ReadAll(rc)
+					rc.Close()
+					res += " " + string(bb)
+				} else {
+					res += " stream-err " + err.Error()
+				}
+				results[k] = res
+			}
+			for _, res := range results {
+				put(res)
+			}
 		case "links": // loads and link computation through one link system over a read-only store
 			for _, l := range s.links {
 				n, err := s.lsys.Load(linking.LinkContext{}, l, basicnode.Prototype.Any)
@@ -419,6 +472,9 @@ func RaceChild(args []string) int {
 		fmt.Println("g", i, d)
 	}
 	_ = mh.SHA2_256
+	for _, d := range c20TempDirs {
+		os.RemoveAll(d)
+	}
 	return 0
 }
 
@@ -501,7 +557,7 @@ func runC20(c *core.Ctx) error {
 		return sigs, sample, digests, seq, nil
 	}
 	rounds := c.Pick(1, 12)
-	for _, workload := range []string{"nodes", "walk", "walk-full", "tsmerge", "links", "loadfail", "bind", "gen", "stream", "infer-same"} {
+	for _, workload := range []string{"nodes", "walk", "walk-full", "tsmerge", "fsstore", "links", "loadfail", "bind", "gen", "stream", "infer-same"} {
 		for round := 0; round < 2*rounds; round++ {
 			g := []int{8, 4, 16}[(round/2)%3]
 			procs := []int{8, 2, 16, 4}[(round/2)%4]
